@@ -307,10 +307,10 @@ func c10Scenarios(thorough bool) []c10Scenario {
 		{{"a", "b"}},
 		{{"a"}, {"b"}},
 		{{"a"}, {"a"}},
-		{{"a", "b"}, {"c"}},
+		{{"a", "a"}},
 	}
 	if thorough {
-		senderSets = append(senderSets, [][]string{{"a", "b"}, {"a", "c"}}, [][]string{{"a", "a"}}, [][]string{{"a", "b"}, {"c", "d"}})
+		senderSets = append(senderSets, [][]string{{"a", "b"}, {"c"}}, [][]string{{"a", "b"}, {"a", "c"}}, [][]string{{"a", "b"}, {"c", "d"}})
 	}
 	faults := []string{"none", "exit0", "exit1", "cut", "dup", "unknown", "oversize", "garbage", "stall", "garbage-high", "oversize-max"}
 	for _, ss := range senderSets {
